@@ -38,5 +38,6 @@ for p in "$@"; do
   out=$(VERIF_DIR=$SNAP VERIF_REPO="$scratch/with" VERIF_EVIDENCE_DIR="$ev" VERIF_REPLAY_DIR="$ev" VERIF_BUDGET_S=${VERIF_BUDGET_S:-200} ./bin/verif check "$p" ${TIER:+--tier $TIER} 2>&1); rc=$?
   echo "check $p: exit=$rc $(echo "$out" | grep -c '^VIOLATION') violation line(s)"
   echo "$out" | grep -A2 '^VIOLATION' | cut -c1-300 | head -${MUTEST_LINES:-6}
+  echo "$out" | grep -v "^VIOLATION\|^  " | tail -3 | cut -c1-400
   rm -rf "$ev"
 done
